@@ -164,6 +164,19 @@ func init() {
 					}
 					f = gen.M{"op": "and", "i": 0, "kids": kids}
 				}
+				if r.Intn(12) == 0 { // exactly-one groups over the same variables in different orders
+					k = 5 + r.Intn(3)
+					var kids []gen.M
+					for j := 0; j < 2+r.Intn(2); j++ {
+						var vs []gen.M
+						for _, v := range r.Perm(k) {
+							vs = append(vs, gen.M{"op": "v", "i": v + 1, "kids": []gen.M{}})
+						}
+						kids = append(kids, gen.M{"op": "uniq", "i": 0, "kids": vs})
+					}
+					kids = append(kids, gen.M{"op": "v", "i": 1 + r.Intn(k), "kids": []gen.M{}})
+					f = gen.M{"op": "and", "i": 0, "kids": kids}
+				}
 				ev := []gen.M{gen.Op("solve")}
 				if i%3 == 0 { // several calls on ONE formula value, also under a negation built around it
 					ev = nil
@@ -254,6 +267,27 @@ func init() {
 					}
 					if r.Intn(2) == 0 {
 						r.Shuffle(len(kids)-1, func(a, b int) { kids[a+1], kids[b+1] = kids[b+1], kids[a+1] })
+					}
+					f = gen.M{"op": "and", "i": 0, "kids": kids}
+				}
+				if r.Intn(8) == 0 {
+					// several exactly-one groups over the SAME variables written in different orders (and sub-groups),
+					// conjoined: whatever the translation shares between groups must not depend on the order
+					k = 5 + r.Intn(3)
+					var kids []gen.M
+					for j := 0; j < 2+r.Intn(2); j++ {
+						g := gen.UniqAll(r, k)
+						if j == 0 || r.Intn(2) == 0 { // the full set, in a random order
+							var vs []gen.M
+							for _, v := range r.Perm(k) {
+								vs = append(vs, gen.M{"op": "v", "i": v + 1, "kids": []gen.M{}})
+							}
+							g = gen.M{"op": "uniq", "i": 0, "kids": vs}
+						}
+						kids = append(kids, g)
+					}
+					if r.Intn(2) == 0 {
+						kids = append(kids, gen.RandFormula(r, k, 1, 1, 0, 0))
 					}
 					f = gen.M{"op": "and", "i": 0, "kids": kids}
 				}
